@@ -8,7 +8,10 @@ pub fn run(ctx: &Ctx, replay_file: Option<String>) -> ! {
         replay::<Case, _>(ctx, &f, |c, i, acc| replay_case::<Pair>("C02", c, i, acc));
     }
     let (kfull, kmax) = ctx.tier.pick((2, 3), (3, 4));
-    let (acc, bound) = explore_programs::<Pair>("C02", kfull, kmax, 2);
+    let (acc0, mut bound) = explore_programs::<Pair>("C02", kfull, kmax, 2);
+    let (acc1, bound1) = explore_magnitudes::<Pair>("C02", ctx.tier.pick(2, 3));
+    let acc = acc0.merge(acc1);
+    bound["second_value_table_magnitudes"] = bound1;
     let _ = json!(null);
     let meta = Meta::exploration(
         "same program space as C01, executed on Dual2 and, in lock step, on Dual: value vs plain f64; gradient and \
@@ -19,7 +22,7 @@ pub fn run(ctx: &Ctx, replay_file: Option<String>) -> ! {
          Non-trivial: >= 2 operators and a non-zero CROSS second partial between two different names.",
         bound,
     )
-    .assume("derivative rules are exercised at the leaf-value table only")
+    .assume("derivative rules are exercised at two leaf-value tables only (ordinary magnitudes to full depth, widely different magnitudes to 2 (3) operators)")
     .assume("RefDual reference model, cross-checked by finite differences on all <=2-operator programs");
     finish(ctx, acc, meta)
 }
